@@ -310,6 +310,8 @@ def monitor_async(case, o):
             bad.append(('async:top-level-entries-not-all-started-concurrently', f'not running while the others wait: {a[1]}'))
         elif a[0] == 'unexpected_start':
             bad.append(('async:command-started-after-failure-in-serial-sub-list', f'command {a[1]} started'))
+        elif a[0] == 'never_happened' and a[1][0] == 'all_started':
+            pass    # reported as not_started_concurrently
         else:
             bad.append(('async:protocol:' + a[0], str(a[1:])))
     want_started, want_fail, want_res = [], [], []
@@ -363,32 +365,37 @@ def execute(env, res, cases):
                 continue
             jobs.append((i, c, m.get('trace')))
         got = {}
+        nviol = 0
         for idx, o in pool.imap_unordered(impl.worker, jobs, chunksize=1):
             if 'infra' in o:
                 raise common.Infra(f'C17 case {idx}: {o["infra"]}')
             got[idx] = o
+            nviol += judge(res, cases[idx], models[idx], o)
+            if nviol >= 40:       # enough failing inputs; do not sit through thousands of timeouts
+                res.extra['stopped_early'] = f'{nviol} violations after {len(got)} of {len(jobs)} cases'
+                break
     finally:
         pool.terminate()
         pool.join()
-    for i, c in enumerate(cases):
-        if i not in got:
-            continue
-        o = got[i]
-        mv, iv = model_view(c, models[i]), impl_view(c, o)
-        failing = bool(mv.get('err') or mv.get('errors'))
-        nstart = len(mv['started'])
-        res.case(c, nontrivial=True)
-        res.count(f"{c['kind']}:{c['step']}")
-        res.count('shape:' + c['shape'].split('/')[0])
-        res.count('outcome:' + ('error' if failing else 'ok'))
-        res.count(f'started:{nstart}/{c["n"]}')
-        if c['kind'] == 'async':
-            res.count(f"lanes:{c['lanes']}")
-        bad = monitor_serial(c, o) if c['kind'] == 'serial' else monitor_async(c, o)
-        for clause, detail in bad:
-            res.violation(c, f'{clause}: {detail}', signature={'step': c['step'], 'clause': clause}, impl=iv)
-        if mv != iv:
-            res.mismatch(c, mv, iv)
+
+
+def judge(res, c, m, o):
+    mv, iv = model_view(c, m), impl_view(c, o)
+    failing = bool(mv.get('err') or mv.get('errors'))
+    nstart = len(mv['started'])
+    res.case(c, nontrivial=True)
+    res.count(f"{c['kind']}:{c['step']}")
+    res.count('shape:' + c['shape'].split('/')[0])
+    res.count('outcome:' + ('error' if failing else 'ok'))
+    res.count(f'started:{nstart}/{c["n"]}')
+    if c['kind'] == 'async':
+        res.count(f"lanes:{c['lanes']}")
+    bad = monitor_serial(c, o) if c['kind'] == 'serial' else monitor_async(c, o)
+    for clause, detail in bad:
+        res.violation(c, f'{clause}: {detail}', signature={'step': c['step'], 'clause': clause}, impl=iv)
+    if mv != iv:
+        res.mismatch(c, mv, iv)
+    return len(bad)
 
 
 def run(env, res):
@@ -400,8 +407,12 @@ def run(env, res):
     ser, asy = serial_cases(env), async_cases(env)
     res.extra['directed_set'] = {'serial': len(ser), 'async': len(asy)}
     if env.quick:
-        ser = env.rng.sample(ser, min(len(ser), 170))
-        asy = env.rng.sample(asy, min(len(asy), 150))
+        def allzero(c):
+            return all(p['code'] == 0 for p in (impl.all_procs_serial(c['cfg']) if c['kind'] == 'serial'
+                                                else impl.all_procs_async(c['cfg'])).values())
+        zs, za = [c for c in ser if allzero(c)], [c for c in asy if allzero(c)]
+        ser = env.rng.sample(zs, min(len(zs), 30)) + env.rng.sample(ser, min(len(ser), 150))
+        asy = env.rng.sample(za, min(len(za), 30)) + env.rng.sample(asy, min(len(asy), 140))
         rnd = random_cases(env, 40)
     else:
         rnd = random_cases(env, 400)
